@@ -14,6 +14,14 @@ CLAIMS = {
    text="three-way differential property-based testing: the same generated program (constant-rich profile, pure/impure host functions with call counters) is generated with the optimizer on and off and interpreted by the reference; values and impure-call counts must agree; plus optimizer on/off sampling on the float and bool instantiations; sampled, not complete",
    note="trusts the reference interpreter for the expected value and call count; rounding differences are tolerated only where the reference saw a rounded float product",
    tech="property-based differential/metamorphic testing (optimizer on vs off vs reference interpreter), call-counting host functions"),
+ "C16": dict(level="exploration",
+   text="differential property-based testing: GenerateWithMap(exp,m) vs Generate(exp',m) vs the reference interpreter, exp' derived from the generator's binding structure; maps in several storage representations; sampled, not complete",
+   note="trusts the scoping analysis of the rewriter (harness/lang/attr.go) and the reference interpreter",
+   tech="property-based differential testing (implicit vs explicit attribute form vs reference interpreter)"),
+ "C10": dict(level="exploration",
+   text="stateful property-based testing: generated histories of evaluations, held/partially consumed lazy results and re-generations on one generator; each outcome is compared with the reference outcome of its own arguments; whole histories shrink as one value; sampled, not complete",
+   note="trusts the reference interpreter; concurrency is out of scope here (C11)",
+   tech="stateful property-based testing (generated operation histories against a reference model)"),
  "C01": dict(level="exploration",
    text="differential property-based testing: programs from a typed grammar generator are evaluated by the implementation (optimizer on and off) and by an independent reference interpreter and compared deeply; shrunk counterexamples become replay files; sampled, not complete",
    note="trusts the reference interpreter and eager reference library in harness/ref (written from documentation, property text and repository tests) and the harness renderer; unspecified edges are skipped, not asserted",
